@@ -88,7 +88,7 @@ def gen_network(rng) -> dict:  # noqa: ANN001
     feats = set()
     nr = rng.randint(1, 4)
     for j in range(nr):
-        kind = rng.choice(["influx", "efflux", "uni", "uni", "bi", "split", "bibi", "homodimer", "bystander", "cofactor_first"])
+        kind = rng.choice(["influx", "efflux", "uni", "uni", "bi", "split", "bibi", "homodimer", "bystander", "cofactor_first", "three_products", "three_substrates"])
         k = f"k{j}"
         lab = [c for c in names if c != "U"]
         if kind == "influx":
@@ -127,6 +127,18 @@ def gen_network(rng) -> dict:  # noqa: ANN001
                     y0["U2"] = round(rng.uniform(0.2, 3.0), 3)
                     comps.append({"kind": "variable", "name": "U2", "value": y0["U2"]})
             fn, args = fl.ma1, [k, s]
+        elif kind == "three_products" and len(lab) >= 3:
+            # three molecules on the product side (counting multiplicity): A -> B + 2 C, or A -> B + C + D
+            if len(lab) >= 4 and rng.random() < 0.5:
+                s, p1, p2, p3 = rng.sample(lab, 4)
+                st = {s: -1, p1: 1, p2: 1, p3: 1}
+            else:
+                s, p1, p2 = rng.sample(lab, 3)
+                st = {s: -1, p1: 1, p2: 2}
+            fn, args = fl.ma1, [k, s]
+        elif kind == "three_substrates" and len(lab) >= 3:
+            s1, s2, p = rng.sample(lab, 3)
+            st, fn, args = {s1: -1, s2: -2, p: 1}, fl.ma3, [k, s1, s2, s2]
         elif kind == "homodimer":
             s, p = rng.sample(lab, 2)
             st, fn, args = {s: -2, p: 1}, fl.ma2, [k, s, s]
